@@ -185,7 +185,7 @@ theorem le_settle {c : Cfg} (hc : Plain c) {pick : List Nat → Option Nat} (hp 
       · exact Le.of_eq rfl (fun h => h)
   | succ fuel ih =>
     intro s
-    simp only [settle]
+    simp only [settle, giveUp_eq hc.toRetrying]
     cases hr : s.retries with
     | nil => exact Le.refl s
     | cons inp rest =>
@@ -216,7 +216,7 @@ theorem settle_post {c : Cfg} (hc : Plain c) {pick : List Nat → Option Nat} (h
       | some w => have := hp _ _ hpk; rw [hid] at this; cases this
   | succ fuel ih =>
     intro s hn
-    simp only [settle]
+    simp only [settle, giveUp_eq hc.toRetrying]
     cases hr : s.retries with
     | nil => exact ⟨Or.inl hr, rfl⟩
     | cons inp rest =>
@@ -310,6 +310,7 @@ theorem tryEnqueue_facts {c : Cfg} (hc : Plain c) {pick : List Nat → Option Na
     ((tryEnqueue c pick s w).2 = false → Quiet (tryEnqueue c pick s w).1) ∧
     ((tryEnqueue c pick s w).2 = true → CN (tryEnqueue c pick s w).1 w ∧ ¬ Quiet s) := by
   unfold tryEnqueue
+  simp only [giveUp_eq hc.toRetrying]
   generalize hg : nextInputs s = r
   obtain ⟨o, s'⟩ := r
   cases o with
@@ -337,6 +338,7 @@ theorem tryEnqueue_facts {c : Cfg} (hc : Plain c) {pick : List Nat → Option Na
 theorem tryEnqueue_err {c : Cfg} (hc : Plain c) {pick : List Nat → Option Nat} (hp : PickOK pick) (ht : PickTotal pick)
     (s : St) (w : Nat) : (tryEnqueue c pick s w).1.err = s.err := by
   unfold tryEnqueue
+  simp only [giveUp_eq hc.toRetrying]
   generalize hg : nextInputs s = r
   obtain ⟨o, s'⟩ := r
   have hs' : s'.err = s.err := by
